@@ -99,6 +99,24 @@ Section Eqs.
                   (enum_from 0 its)) (fun r => Ok (PB r))))).
     destruct (eval P E n s l) as [vl|]; simpl in H |- *; [|discriminate]. rewrite H. reflexivity.
   Qed.
+  Lemma exec_return n s e :
+    exec P E (S n) s (SReturn e) = match eval P E n s e with Ok v => ORet v s | Err c => OErr c s end.
+  Proof. reflexivity. Qed.
+  Lemma eval_filtercomp n s x l cond rs : eval P E n s l = Ok (PLL rs) ->
+    eval P E (S n) s (XFilterComp x l cond) =
+    rbind (filter_each (fun r => rbind (eval P E n (set_loc x (PL r) s) cond) truth) rs) (fun out => Ok (PLL out)).
+  Proof.
+    intro H.
+    change (eval P E (S n) s (XFilterComp x l cond)) with
+      (rbind (eval P E n s l) (fun vl =>
+         match vl with
+         | PLL rs => rbind (filter_each (fun r => rbind (eval P E n (set_loc x (PL r) s) cond) truth) rs)
+                       (fun out => Ok (PLL out))
+         | PNil => Ok PNil
+         | _ => Err ENotModelled
+         end)).
+    rewrite H. reflexivity.
+  Qed.
   Lemma exec_call n s m args mt vs lc :
     lookup m P = Some mt -> eval_args (eval P E n s) args = Ok vs ->
     bind_params (m_params mt) vs (m_locals mt) = Some lc ->
@@ -295,6 +313,8 @@ Ltac contra :=
   first [ eapply mem_remove_first; eassumption
         | eapply mem_index_of; eassumption
         | match goal with H : nth_error ?r ?k = None, H' : (?k < length ?r)%nat |- _ => apply nth_error_None in H; lia end
+        | match goal with H : nth_error ?r ?k = Some _, H' : (length ?r <= ?k)%nat |- _ =>
+            apply nth_error_None in H'; rewrite H' in H; discriminate H end
         | match goal with H : index_of rule_eqb ?r ?l = Some ?i, H' : (length ?l <= ?i)%nat |- _ =>
             apply index_of_lt in H; lia end
         | match goal with H : mem rule_eqb ?r ?l = false, H' : index_of rule_eqb ?r ?l = Some _ |- _ =>
@@ -692,6 +712,167 @@ Proof.
       * intros r p r0. cbv beta iota. sym'; fin_acc.
       * rew_loop Hl2. cbv beta iota. sym'. reflexivity.
   - destruct HL as (acc' & res' & r' & HL). rew_loop HL. rewrite (split_filtered_err_code _ _ _ _ Es). reflexivity.
+Qed.
+
+Lemma get_filtered_each (H : rule -> result bool) fi vs :
+  (forall r, H r = match filter_match r fi vs with Some b => Ok b | None => Err EIndex end) ->
+  forall l, filter_each H l = match get_filtered l fi vs with Ok out => Ok out | Err _ => Err EIndex end.
+Proof.
+  intro HH. induction l as [|x l IH]; simpl; [reflexivity|].
+  rewrite HH. destruct (filter_match x fi vs) as [b|]; [|reflexivity].
+  rewrite IH. destruct (get_filtered l fi vs); reflexivity.
+Qed.
+
+Lemma get_filtered_err_code : forall l i vs c, get_filtered l i vs = Err c -> c = EIndex.
+Proof.
+  induction l as [|x l IH]; intros i vs c H; simpl in H; [discriminate|].
+  destruct (filter_match x i vs) as [b|]; [|inversion H; reflexivity].
+  destruct (get_filtered l i vs) as [o|c'] eqn:E; [discriminate|].
+  inversion H; subst. eapply IH. exact E.
+Qed.
+
+Lemma tie_get_filtered_policy sp pi tk l fi vs :
+  run policy_gen (mkE sp pi tk) FUEL m_get_filtered_policy l [PI (Z.of_nat fi); PL vs] =
+  (match get_filtered l fi vs with Ok out => Ok (PLL out) | Err c => Err c end, l).
+Proof.
+  start.
+  rewrite (block_step _ _ _ _ _ _ _ eq_refl). rewrite exec_return.
+  match goal with |- context [eval ?P ?E (S ?n) ?s (XFilterComp ?x ?e ?c)] =>
+    rewrite (eval_filtercomp P E n s x e c l eq_refl) end.
+  match goal with |- context [filter_each ?H l] => rewrite (get_filtered_each H fi vs) end.
+  - destruct (get_filtered l fi vs) as [out|c] eqn:Eg; cbn [rbind]; cbv beta iota.
+    + reflexivity.
+    + rewrite (get_filtered_err_code _ _ _ _ Eg). reflexivity.
+  - intro r. cbv beta.
+    filter_cond r fi vs.
+    destruct (filter_match r fi vs) as [[|]|]; reflexivity.
+Qed.
+
+Definition res_eff (r : result (store * list rule)) (l : store) : result pv * list rule :=
+  match r with Ok (l', gone) => (Ok (enc gone), l') | Err c => (Err c, l) end.
+
+Lemma tie_remove_filtered_policy_returns_effects sp pi tk l fi vs :
+  run policy_gen (mkE sp pi tk) FUEL m_remove_filtered_policy_returns_effects l [PI (Z.of_nat fi); PL vs] =
+  res_eff (remove_filtered_effects l fi vs) l.
+Proof.
+  start. sym'.
+  { (* no filter values *)
+    destruct vs as [|v vs]; [reflexivity|].
+    exfalso. match goal with H : (Z.of_nat (length (v :: vs)) =? 0)%Z = true |- _ => apply Z.eqb_eq in H; simpl length in H; lia end. }
+  assert (Hvs : vs <> []).
+  { intros ->. match goal with H : (Z.of_nat (length (@nil name)) =? 0)%Z = false |- _ => simpl in H; discriminate H end. }
+  match goal with |- context [for_each ?F (map PL l) _] =>
+    pose proof (filter_loop F
+      (fun acc (res : bool) r => {| pol := l; loc := [(1, PI (Z.of_nat fi)); (2, PL vs); (8, PNil); (17, enc acc); (3, r); (4, PUnbound); (5, PUnbound)] |})
+      fi vs) as HL end.
+  cbv beta in HL.
+  assert (HP : forall (r : list name) (acc : list rule) (res : bool) (r0 : pv),
+     block policy_gen (mkE sp pi tk) 53
+       (set_loc 3 (PL r) {| pol := l; loc := [(1, PI (Z.of_nat fi)); (2, PL vs); (8, PNil); (17, enc acc); (3, r0); (4, PUnbound); (5, PUnbound)] |})
+       [SIf (XAllEnum 4 5 (XVar 2) (XOr (XCmp CEq (XVar 5) (XS 0)) (XCmp CEq (XIdx (XVar 3) (XAdd (XVar 1) (XVar 4))) (XVar 5))))
+          [SLocAppend 17 (XVar 3)] []] =
+     match filter_match r fi vs with
+     | Some true => ONext {| pol := l; loc := [(1, PI (Z.of_nat fi)); (2, PL vs); (8, PNil); (17, enc (acc ++ [r])); (3, PL r); (4, PUnbound); (5, PUnbound)] |}
+     | Some false => ONext {| pol := l; loc := [(1, PI (Z.of_nat fi)); (2, PL vs); (8, PNil); (17, enc acc); (3, PL r); (4, PUnbound); (5, PUnbound)] |}
+     | None => OErr EIndex {| pol := l; loc := [(1, PI (Z.of_nat fi)); (2, PL vs); (8, PNil); (17, enc acc); (3, PL r); (4, PUnbound); (5, PUnbound)] |}
+     end).
+  { intros r acc res r0.
+    rewrite (block_step _ _ _ _ _ _ _ eq_refl).
+    rewrite (exec_if _ _ _ _ _ _ _ _ eq_refl).
+    filter_cond r fi vs.
+    destruct (filter_match r fi vs) as [[|]|]; cbn [rbind truth]; cbv beta iota; sym'; fin_acc. }
+  specialize (HL HP l [] false PUnbound). clear HP.
+  unfold remove_filtered_effects. destruct vs as [|v0 vs0]; [contradiction|]. set (vs := v0 :: vs0) in *.
+  destruct (split_filtered l fi vs) as [[kept gone]|c] eqn:Es; cbn [res_eff].
+  - destruct HL as (r' & HL). rew_loop HL. clear HL. cbv beta iota. cbn [app].
+    destruct (split_filtered_spec _ _ _ _ _ Es) as [Hg Hk].
+    pose proof (remove_seq_filter (fm_true fi vs) l) as Hseq. rewrite <- Hg, <- Hk in Hseq.
+    clear Hg Hk Es. destruct gone as [|g0 gs0].
+    + simpl in Hseq. inversion Hseq; subst kept. cbn [enc]. sym'. reflexivity.
+    + cbn [enc]. step. step.
+      match goal with |- context [for_each ?F (map PL (g0 :: gs0)) _] =>
+        destruct (remove_seq_loop F
+          (fun p r => {| pol := p; loc := [(1, PI (Z.of_nat fi)); (2, PL vs); (8, PNil); (17, PLL (g0 :: gs0)); (3, r); (4, PUnbound); (5, PUnbound)] |}))
+          with (gs := g0 :: gs0) (p := l) (p' := kept) (r0 := r') as (r2 & Hl2); [| exact Hseq |] end.
+      * intros r p r0. cbv beta iota. sym'; fin_acc.
+      * rew_loop Hl2. cbv beta iota. sym'. reflexivity.
+  - destruct HL as (acc' & res' & r' & HL). rew_loop HL. rewrite (split_filtered_err_code _ _ _ _ Es). reflexivity.
+Qed.
+
+(* ------------------------------------------------------------------ get_values_for_field_in_policy *)
+Definition encn (acc : list name) : pv := match acc with [] => PNil | _ => PL acc end.
+
+Lemma memN_app (x : name) a b : mem N.eqb x (a ++ b) = mem N.eqb x a || mem N.eqb x b.
+Proof. induction a as [|y a IH]; simpl; [reflexivity|]. rewrite IH, orb_assoc. reflexivity. Qed.
+
+Lemma memN_rev (x : name) l : mem N.eqb x (rev l) = mem N.eqb x l.
+Proof.
+  induction l as [|y l IH]; simpl; [reflexivity|].
+  rewrite memN_app, IH. simpl. rewrite orb_false_r. apply orb_comm.
+Qed.
+
+Lemma values_loop (F : pv -> pst -> out) (mk : list name -> pv -> pv -> pst) (fi : nat) :
+  (forall r acc r0 v0, F (PL r) (mk acc r0 v0) =
+     match nth_error r fi with
+     | None => OErr EIndex (mk acc (PL r) v0)
+     | Some v => ONext (mk (if mem N.eqb v acc then acc else acc ++ [v]) (PL r) (PA v))
+     end) ->
+  forall l acc r0 v0,
+  match values_for_field l fi (rev acc) with
+  | Ok out => exists r' v', for_each F (map PL l) (mk acc r0 v0) = ONext (mk out r' v')
+  | Err _ => exists acc' r' v', for_each F (map PL l) (mk acc r0 v0) = OErr EIndex (mk acc' r' v')
+  end.
+Proof.
+  intro HF. induction l as [|x l IH]; intros acc r0 v0.
+  - simpl. rewrite rev_involutive. eexists _, _. reflexivity.
+  - cbn [values_for_field map for_each]. rewrite HF. unfold field.
+    destruct (nth_error x fi) as [v|]; cbv beta iota; [|eexists _, _, _; reflexivity].
+    specialize (IH (if mem N.eqb v acc then acc else acc ++ [v]) (PL x) (PA v)).
+    rewrite memN_rev.
+    replace (rev (if mem N.eqb v acc then acc else acc ++ [v])) with (if mem N.eqb v acc then rev acc else v :: rev acc) in IH
+      by (destruct (mem N.eqb v acc); [reflexivity | rewrite rev_app_distr; reflexivity]).
+    exact IH.
+Qed.
+
+Lemma values_for_field_err_code : forall l i acc c, values_for_field l i acc = Err c -> c = EIndex.
+Proof.
+  induction l as [|x l IH]; intros i acc c H; simpl in H; [discriminate|].
+  destruct (field x i) as [v|]; [|inversion H; reflexivity]. eapply IH. exact H.
+Qed.
+
+Ltac fin_v :=
+  norm_hyps;
+  repeat match goal with
+  | H1 : ?x = Some ?a, H2 : ?x = Some ?b |- _ => rewrite H1 in H2; inversion H2; subst; clear H2
+  | H1 : ?x = Some _, H2 : ?x = None |- _ => rewrite H1 in H2; discriminate H2
+  end;
+  subst; cbn [encn app mem] in *;
+  repeat match goal with H : mem _ _ _ = _ |- _ => rewrite H in * end;
+  try reflexivity; try discriminate; try contra.
+
+Lemma values_body sp pi tk l fi (r acc : list name) (r0 v0 : pv) :
+  block policy_gen (mkE sp pi tk) 55
+    (set_loc 3 (PL r) {| pol := l; loc := [(1, PI (Z.of_nat fi)); (19, encn acc); (3, r0); (5, v0)] |})
+    [SAssign 5 (XIdx (XVar 3) (XVar 1)); SIf (XNot (XIn (XVar 5) (XVar 19))) [SLocAppend 19 (XVar 5)] []] =
+  match nth_error r fi with
+  | None => OErr EIndex {| pol := l; loc := [(1, PI (Z.of_nat fi)); (19, encn acc); (3, PL r); (5, v0)] |}
+  | Some v => ONext {| pol := l; loc := [(1, PI (Z.of_nat fi)); (19, encn (if mem N.eqb v acc then acc else acc ++ [v])); (3, PL r); (5, PA v)] |}
+  end.
+Proof. sym'. all: fin_v. Qed.
+
+Lemma tie_get_values_for_field sp pi tk l fi :
+  run policy_gen (mkE sp pi tk) FUEL m_get_values_for_field_in_policy l [PI (Z.of_nat fi)] =
+  (match values_for_field l fi [] with Ok out => Ok (encn out) | Err c => Err c end, l).
+Proof.
+  match goal with |- _ = ?rhs => set (R := rhs) end. start. sym'. subst R.
+  match goal with |- context [for_each ?F (map PL l) _] =>
+    pose proof (values_loop F
+      (fun acc r v => {| pol := l; loc := [(1, PI (Z.of_nat fi)); (19, encn acc); (3, r); (5, v)] |}) fi
+      (values_body sp pi tk l fi) l [] PUnbound PUnbound) as HL end.
+  cbn [rev] in HL.
+  destruct (values_for_field l fi []) as [out|c] eqn:Ev.
+  - destruct HL as (r' & v' & HL). rew_loop HL. cbv beta iota. sym'; reflexivity.
+  - destruct HL as (acc' & r' & v' & HL). rew_loop HL. rewrite (values_for_field_err_code _ _ _ _ Ev). reflexivity.
 Qed.
 
 (* ------------------------------------------------------------------ C06, stated of the regenerated source *)
